@@ -699,6 +699,18 @@ def register_all(M):
                     raise PanicPath("str index: start > end")
                 return Str(el[a:b])
             raise Unsupported("str index with %r" % (i,))
+        if (isinstance(base, (SVec, Slice)) or (isinstance(base, Agg) and base.kind == "array")) and isinstance(i, Agg) and i.kind in ("adt:Range", "adt:RangeFrom", "adt:RangeTo"):
+            sl = slice_of(base)
+            n = len(sl)
+            lo = i.fields[0] if i.kind in ("adt:Range", "adt:RangeFrom") else 0
+            hi = i.fields[1] if i.kind == "adt:Range" else (i.fields[0] if i.kind == "adt:RangeTo" else n)
+            lo = as_int(it, lo, 0, n + 8, "slice start")
+            hi = as_int(it, hi, 0, n + 8, "slice end")
+            if lo > hi:
+                raise PanicPath("slice index starts at %d but ends at %d" % (lo, hi))
+            if hi > n:
+                raise PanicPath("range end index %d out of range for slice of length %d" % (hi, n))
+            return Slice(sl.items, sl.lo + lo, sl.lo + hi)
         if isinstance(base, (SVec, Slice)) or (isinstance(base, Agg) and base.kind == "array"):
             sl = slice_of(base)
             n = len(sl)
@@ -730,6 +742,21 @@ def register_all(M):
             r = it.call_function(f, [args[0], args[1]])
         elif isinstance(a, Agg) and isinstance(b, Agg) and a.kind in ("adt:Option", "tuple") and a.kind == b.kind:
             r = struct_eq(a, b)
+        elif isinstance(a, (Slice, SVec)) or (isinstance(a, Agg) and a.kind == "array") or isinstance(b, (Slice, SVec)):
+            sa, sb = slice_of(a), slice_of(b)
+            xa = [sa.items[k] for k in range(sa.lo, sa.hi)]
+            xb = [sb.items[k] for k in range(sb.lo, sb.hi)]
+            if len(xa) != len(xb):
+                r = False
+            elif any(isinstance(x, (Agg, SString, Str)) for x in xa + xb):
+                raise Unsupported("slice equality on non-scalar elements")
+            else:
+                conds = [simp(bv(x, 8) == bv(y, 8)) if (is_sym(x) or is_sym(y)) else (x == y) for x, y in zip(xa, xb)]
+                if any(c is False for c in conds):
+                    r = False
+                else:
+                    cs = [c for c in conds if c is not True]
+                    r = True if not cs else simp(z3.And(cs))
         elif not isinstance(a, Agg) and not isinstance(b, Agg) and (isinstance(a, (int, bool)) or is_sym(a)):
             r = char_eq(a, b) if not (isinstance(a, bool) or (is_sym(a) and z3.is_bool(a))) else simp(to_z(a) == to_z(b))
         else:
@@ -1280,6 +1307,39 @@ def register_all(M):
         m.entries.append([tuple(key), args[2]])
         return none()
 
+    @reg("HashMap::iter", "HashMap::iter_mut")
+    def m_map_iter(it, args, callee):
+        m = deref(args[0])
+        if m.oracle is not None:
+            raise Unsupported("iteration over an oracle-backed map")
+        return ItOwned([Agg("tuple", None, [Ref([SString(k)], 0), Ref(e, 1)]) for e in m.entries for k in [e[0]]])
+
+    @reg("HashMap::keys")
+    def m_map_keys(it, args, callee):
+        m = deref(args[0])
+        if m.oracle is not None:
+            raise Unsupported("iteration over an oracle-backed map")
+        return ItOwned([Ref([SString(e[0])], 0) for e in m.entries])
+
+    @reg("HashMap::values", "HashMap::values_mut")
+    def m_map_values(it, args, callee):
+        m = deref(args[0])
+        if m.oracle is not None:
+            raise Unsupported("iteration over an oracle-backed map")
+        return ItOwned([Ref(e, 1) for e in m.entries])
+
+    @reg("HashMap::retain")
+    def m_map_retain(it, args, callee):
+        m = deref(args[0])
+        if m.oracle is not None:
+            raise Unsupported("retain on an oracle-backed map")
+        keep = []
+        for e in m.entries:
+            if it.st.branch(it.call_value(args[1], [Ref([SString(e[0])], 0), Ref(e, 1, True)])):
+                keep.append(e)
+        m.entries[:] = keep
+        return UNIT
+
     @reg("HashMap::clear")
     def m_map_clear(it, args, callee):
         m = deref(args[0])
@@ -1346,6 +1406,17 @@ def register_all(M):
         if is_sym(i):
             i = it.st.concretize_int(i, 0, max(len(s2), 1) + 1, "slice::get index")
         return some(Ref(s2.items, s2.lo + i)) if i < len(s2) else none()
+
+    @reg("slice::starts_with", "slice::ends_with")
+    def m_slice_starts_with(it, args, callee):
+        sa, sb = slice_of(args[0]), slice_of(args[1])
+        if len(sb) > len(sa):
+            return False
+        if "starts_with" in callee:
+            part = Slice(sa.items, sa.lo, sa.lo + len(sb))
+        else:
+            part = Slice(sa.items, sa.hi - len(sb), sa.hi)
+        return m_eq(it, [part, sb], "PartialEq::eq")
 
     @reg("str::starts_with", "str::ends_with")
     def m_starts_with(it, args, callee):
